@@ -175,6 +175,11 @@ impl Z80Bus for TBus {
     }
     fn wait_no_mreq(&mut self, addr: u16, clk: usize) {
         self.flush_pending();
+        // internal T-states are presented to the machine one by one (each can be contended on its
+        // own): a lump of several T-states is not the documented cycle shape
+        if clk != 1 && self.record_timing {
+            self.push(Evt::Anomaly("internal delay of more than one T-state presented as a single bus call (wait_no_mreq with clk != 1)"));
+        }
         for _ in 0..clk {
             self.push(Evt::Delay { addr });
         }
